@@ -205,9 +205,21 @@ Section Oracle.
 
   (* ---- queries --------------------------------------------------------------------------------- *)
   (* store.FindCid: the GetAll walk is Store.find_cid; "matched with fnLen = -1" ends as ErrNotFound *)
+  (* candidate offsets the index may hold that are not int64: FindCid converts with int64(offset); the
+     reader created at the negative offset fails on its first read -- io.EOF from the io.SectionReader
+     backing of a CARv2, an error from a plain ReaderAt (bytes.Reader, *os.File, mmap).  Nothing is ever
+     read from a wrapped-around position. *)
+  Fixpoint int64_prefix (offs : list N) : list N * bool :=
+    match offs with
+    | [] => ([], false)
+    | off :: t => if off <? two63 then let '(p, bad) := int64_prefix t in (off :: p, bad) else ([], true)
+    end.
+
   Definition ro_find (s : rostate) (key : bytes) (kp : cidp) (readbytes : bool) : res (bytes * N * Z) :=
     let o := s_opts s in
-    match find_cid (s_view s) (ridx_getall (s_idx s) kp) key kp (q_whole o) (q_zeof o) (q_maxs o) readbytes with
+    let '(offs, bad) := int64_prefix (ridx_getall (s_idx s) kp) in
+    match find_cid (s_view s) offs key kp (q_whole o) (q_zeof o) (q_maxs o) readbytes with
+    | Err ENotFound => if bad then Err (if s_v2 s then EEof else EOther) else Err ENotFound
     | Err e => Err e
     | Ok (d, off, n) => if (n =? -1)%Z then Err ENotFound else Ok (d, off, n)
     end.
@@ -311,6 +323,52 @@ Section Oracle.
       let start := ld_size (blen (enc_header (Some roots) ver)) in
       let '(ks, e) := keys_scan (S (S (length (s_view s)))) s start [] in
       KKeys ks e
+    end.
+  (* ---- ReadOnly.Close and the closed state -------------------------------------------------------
+     closed is checked after the identity short cut (Has/Get: only when StoreIdentityCIDs is off; GetSize:
+     always) and not at all by Roots, which re-reads the header from the backing -- that fails only when
+     Close closed the backing itself (OpenReadOnly: the mmap).  A second Close is a no-op returning nil. *)
+  Record rosess := mkss { ss_st : rostate; ss_closed : bool; ss_mmap : bool }.
+
+  Inductive roop := RHas (key : bytes) | RGet (key : bytes) | RGetSize (key : bytes) | RKeys | RRoots | RClose.
+  Inductive roans := AOut (o : out) | AKeys (k : keys_out).
+
+  Definition ss_has (ss : rosess) (key : bytes) : out :=
+    match cid_parse key with
+    | None => OErr EOther
+    | Some kp =>
+      if negb (q_storeid (s_opts (ss_st ss))) && is_identity kp then OBool true
+      else if ss_closed ss then OErr EClosed else ro_has (ss_st ss) key
+    end.
+  Definition ss_get (ss : rosess) (key : bytes) : out :=
+    match cid_parse key with
+    | None => OErr EOther
+    | Some kp =>
+      if negb (q_storeid (s_opts (ss_st ss))) && is_identity kp then OBytes (c_digest kp)
+      else if ss_closed ss then OErr EClosed else ro_get (ss_st ss) key
+    end.
+  Definition ss_getsize (ss : rosess) (key : bytes) : out :=
+    match cid_parse key with
+    | None => OErr EOther
+    | Some kp =>
+      if is_identity kp then OSize (Z.of_N (blen (c_digest kp)))
+      else if ss_closed ss then OErr EClosed else ro_getsize (ss_st ss) key
+    end.
+
+  Definition ss_step (ss : rosess) (op : roop) : rosess * roans :=
+    match op with
+    | RHas k => (ss, AOut (ss_has ss k))
+    | RGet k => (ss, AOut (ss_get ss k))
+    | RGetSize k => (ss, AOut (ss_getsize ss k))
+    | RKeys => (ss, AKeys (if ss_closed ss then KOpenErr EClosed else ro_keys (ss_st ss)))
+    | RRoots => (ss, AOut (if ss_closed ss && ss_mmap ss then OErr EOther else ro_roots (ss_st ss)))
+    | RClose => (mkss (ss_st ss) true (ss_mmap ss), AOut ONil)
+    end.
+
+  Fixpoint ss_run (ss : rosess) (ops : list roop) : list roans :=
+    match ops with
+    | [] => []
+    | op :: t => let '(ss', a) := ss_step ss op in a :: ss_run ss' t
     end.
 End Oracle.
 
